@@ -251,6 +251,28 @@ class HistoryRun:
                     {"op": "commit", "id": oid},
                 ]
                 return {"op": "cp_ext", "id": oid, "files": [[os.path.basename(a), c1]], "dst": a, "recursive": False}
+        elif r < 0.075 and oid in view["main"]:
+            # reset of several paths of which ONE cannot be restored (its name is a directory now) while the others
+            # were modified / removed: the others are restored, the failure is reported, everything stays readable
+            mpaths = sorted(absinv.head_state_map(view["main"][oid][1]))
+            files = [p for p in mpaths if p in paths]
+            if len(files) >= 2:
+                blocked = rng.choice(files)
+                others = [p for p in files if p != blocked and not p.startswith(blocked + "/") and not blocked.startswith(p + "/")]
+                rng.shuffle(others)
+                others = others[:rng.randint(1, 3)]
+                cs = [self.fresh_content() for _ in range(len(others) + 1)]
+                if others and cs[-1] is not None:
+                    key = "reset of several paths, one blocked by a directory of its name, others modified"
+                    self.shapes[key] = self.shapes.get(key, 0) + 1
+                    self.queue = [{"op": "cp_ext", "id": oid, "files": [["in.txt", cs[0]]], "dst": blocked + "/in.txt", "recursive": False}]
+                    for q, c in zip(others, cs[1:]):
+                        if rng.random() < 0.7:
+                            self.queue.append({"op": "cp_ext", "id": oid, "files": [[os.path.basename(q), c]], "dst": q, "recursive": False})
+                        else:
+                            self.queue.append({"op": "rm", "id": oid, "paths": [q], "recursive": False})
+                    self.queue.append({"op": "reset", "id": oid, "paths": [blocked] + others, "recursive": False})
+                    return {"op": "rm", "id": oid, "paths": [blocked], "recursive": False}
         return None
 
     # ---- execution
